@@ -691,10 +691,21 @@ func (g *gen) stmts(n int) bool {
 	return false
 }
 
+func (g *gen) isScratch(i uint32) bool {
+	for _, s := range g.f.scratch {
+		if s == i {
+			return true
+		}
+	}
+	return false
+}
+
+// localsOf lists the locals of a type, except scratch locals (they may hold NaNs that have
+// not been canonicalised yet and must never be observed by generated code).
 func (g *gen) localsOf(ty byte) []uint32 {
 	var r []uint32
 	for i, t := range g.f.locals {
-		if t == ty {
+		if t == ty && !g.isScratch(uint32(i)) {
 			r = append(r, uint32(i))
 		}
 	}
@@ -722,6 +733,9 @@ func (g *gen) stmt() (terminated bool) {
 			return false
 		}
 		i := uint32(g.intn(len(g.f.locals), "lset"))
+		if g.isScratch(i) {
+			return false
+		}
 		g.expr(g.f.locals[i], d)
 		g.localSet(i)
 	case "globalset":
